@@ -147,6 +147,19 @@ func (p *Pool) Exec(req *Req) Rep {
 			return Rep{Outcome: Infra, Msg: "start worker: " + err.Error()}
 		}
 	}
+	limit := p.RSSLimit
+	if limit == 0 {
+		limit = 2 << 30
+	}
+	// a previous case may have left a large heap behind (e.g. a decoder that allocated a huge
+	// array and then failed cleanly): start from a fresh worker so that the next case is not
+	// blamed for memory it did not allocate
+	if rssBytes(p.w.cmd.Process.Pid) > limit/4 {
+		p.Close()
+		if err := p.start(); err != nil {
+			return Rep{Outcome: Infra, Msg: "restart worker: " + err.Error()}
+		}
+	}
 	w := p.w
 	if err := w.enc.Encode(req); err != nil {
 		p.Close()
@@ -160,10 +173,6 @@ func (p *Pool) Exec(req *Req) Rep {
 	dl := time.Duration(req.DeadlineMs) * time.Millisecond
 	if dl <= 0 {
 		dl = Deadline(len(req.Src))
-	}
-	limit := p.RSSLimit
-	if limit == 0 {
-		limit = 2 << 30
 	}
 	deadline := time.NewTimer(dl)
 	defer deadline.Stop()
